@@ -68,31 +68,36 @@ def ensureKid (P : Prims) (K : KeyEnv) (k : Key) : Except Err Key :=
   if k.dict.contains "kid" then .ok k
   else do pure { k with dict := k.dict.set "kid" (.str (← thumbprint P K k)) }
 
-/-- `guess_key(key, obj, use_random)`: the key and, if one was picked at random, the kid to record. -/
-def guessKey (P : Prims) (E : Env) (K : KeyEnv) (arg : KeyArg) (headers : JVal) (useRandom : Bool) :
-    Except Err (Key × Option JVal) := do
-  let base := match arg with
-    | .base b => b
-    | .callable f => f headers
+/-- The random pick of `guess_key` for a key set without kid (`pick_random_key`, `ensure_kid`, `set_kid`). -/
+def pickRandom (P : Prims) (E : Env) (K : KeyEnv) (ks : List Key) (headers : JVal) : Except Err (Key × Option JVal) := do
+  let algv ← pyGetItemStr headers "alg"
+  let cands ← match algv with
+    | .str s => pure (pickCandidates E.algKeys ks s)
+    | .arr _ | .obj _ => throw .typeError
+    | _ => pure ks
+  ensure (!cands.isEmpty) .valueError   -- `pick_random_key` returned None: "Invalid key"
+  match cands[(← P.choice cands.length) % cands.length]? with
+  | none => throw .valueError
+  | some k =>
+    let k' ← ensureKid P K k
+    ensure (!k'.kid.isNone) .assertionError
+    pure (k', some k'.kid)
+
+/-- `guess_key` once the key argument is normalised to a key / key set / something else. -/
+def guessKeyBase (P : Prims) (E : Env) (K : KeyEnv) (base : KeyBase) (headers : JVal) (useRandom : Bool) :
+    Except Err (Key × Option JVal) :=
   match base with
   | .key k => pure (k, none)
   | .invalid => throw .valueError
-  | .set ks =>
+  | .set ks => do
     let kid ← pyGet headers "kid"
-    if !kid.truthy && useRandom then
-      let algv ← pyGetItemStr headers "alg"
-      let cands ← match algv with
-        | .str s => pure (pickCandidates E.algKeys ks s)
-        | .arr _ | .obj _ => throw .typeError
-        | _ => pure ks
-      ensure (!cands.isEmpty) .valueError   -- `pick_random_key` returned None: "Invalid key"
-      match cands[(← P.choice cands.length) % cands.length]? with
-      | none => throw .valueError
-      | some k =>
-        let k' ← ensureKid P K k
-        ensure (!k'.kid.isNone) .assertionError
-        pure (k', some k'.kid)
+    if !kid.truthy && useRandom then pickRandom P E K ks headers
     else do pure (← getByKid ks kid, none)
+
+/-- `guess_key(key, obj, use_random)`: the key and, if one was picked at random, the kid to record. -/
+def guessKey (P : Prims) (E : Env) (K : KeyEnv) (arg : KeyArg) (headers : JVal) (useRandom : Bool) :
+    Except Err (Key × Option JVal) :=
+  guessKeyBase P E K (match arg with | .base b => b | .callable f => f headers) headers useRandom
 
 /-- `obj.set_kid(kid)` on a compact object when a key was picked at random. -/
 def applyKid (prot : JVal) (kid? : Option JVal) : Except Err JVal :=
